@@ -131,7 +131,8 @@ add("C04", "other",
 add("C02", "other",
     "Partial. Proved in Coq on the definitional semantics (PropC02.v): a naked yield is the identity; a one-iterator loop is "
     "exactly bind / body / only-then-resume (an explicit recursion over the generator's resumptions); no yield means no body and "
-    "nil; return in the body abandons the generator; errors end the statement; bodies run in yield order. Not proved: that the "
+    "nil; return in the body abandons the generator; errors end the statement; bodies run in yield order; a generator handing out "
+    "n values makes the body run exactly n times in order, for every n (C02_n_yields_n_bodies_in_order). Not proved: that the "
     "VM's context instructions implement this. Decided each run on generator-heavy sessions (towers of map/filter/take/chain/zip "
     "to depth 4, recursive generators, nested and multi-iterator loops, early returns, deep recursion, closure instances with "
     "loops within one statement) compared inside Coq with Sem and the VM model, including interleaved output and the loop "
